@@ -3,6 +3,18 @@ import json
 from core import cN, cbool, copt, clist
 
 LEVEL = "proof"
+READY = True
+MANIFEST = {
+    "technique": "Coq proof on Gallina model + differential correspondence (exhaustive small range + random) evaluated in Coq",
+    "text": "Theorems (for all headers, unbounded): contradiction is symmetric, equals the LIP-0014 'neither is a legitimate successor' "
+            "characterisation, never holds across generators, flags double forging / lower-maxHeightPrevoted chain / violated "
+            "maxHeightGenerated, never flags a protocol-following generator's history; fork-choice classification equals the "
+            "declarative LIP-0014 case list and IsDifferentChain is the strict lexicographic order on (maxHeightPrevoted,height). "
+            "The model is tied to the Go code by running both on every header pair over a small range exhaustively plus random "
+            "uint32 pairs and fork-choice observations; every implementation answer is also checked against the declarative oracle.",
+    "note": "Trusted: Coq kernel + vm_compute, the hand-written model's fidelity as sampled by the correspondence, Go harness and "
+            "Python glue. The 'contradicting header inside the window is always flagged' clause is proved with the vote model (C02).",
+}
 IMPORTS = "From LE Require Import BFT.Contradiction BFT.ForkChoice Corr.C07."
 
 
